@@ -5,6 +5,6 @@ LOG=${SEEDLOG:-/tmp/seedchk/log}
 for item in "$@"; do
   set -- $item
   echo "=== $item $(date +%H:%M:%S)" >> $LOG
-  python3 $(dirname $0)/seedcheck.py $1 $2 $3 $4 >> $LOG 2>&1
+  python3 $(dirname $0)/seedcheck.py $1 $2 $3 $4 $5 >> $LOG 2>&1
 done
 echo "=== BATCH DONE $(date +%H:%M:%S)" >> $LOG
